@@ -460,6 +460,44 @@ func famPersist(f *FamCtx) {
 			f.RunTreeCase(Case{cfg, ops}, exactRunner, multiLevel)
 			continue
 		}
+		if i%10 == 9 {
+			// a failed call must not make the tree need a write: a persisted version reloaded (no
+			// cache), operations on it with one of their loads failing and NOT retried, IsDirty and
+			// MakeRoot after each (clean, same root, no Store call); then a real change and a MakeRoot
+			cfg := noCache(RandCfg(f.Rand))
+			cfg.KK = "vk"
+			vk := func(id, layer int) uint64 { return uint64(id)<<8 | uint64(layer) }
+			ops := []string{"new 0"}
+			var keys []uint64
+			for j := 0; j < 6+f.Rand.Intn(30); j++ {
+				l := 0
+				for l < 3 && f.Rand.Intn(int(cfg.BF)) == 0 {
+					l++
+				}
+				k := vk(10+f.Rand.Intn(400), l)
+				keys = append(keys, k)
+				ops = append(ops, opIns(0, k, 1))
+			}
+			ops = append(ops, "root 0 0", "load 0 1")
+			nr := 1
+			for j := 0; j < 2+f.Rand.Intn(4); j++ {
+				var op string
+				switch f.Rand.Intn(4) {
+				case 0, 1:
+					// a new key of layer 1..3: its slot in an upper node usually has a child to split
+					op = opIns(1, vk(10+f.Rand.Intn(400), 1+f.Rand.Intn(3)), 2)
+				case 2:
+					op = opDel(1, pick(f.Rand, keys), 1)
+				default:
+					op = opIns(1, pick(f.Rand, keys), 3)
+				}
+				ops = append(ops, fmt.Sprintf("faultnoretry load %d %s", f.Rand.Intn(4), op), "stat 1", fmt.Sprintf("root 1 %d", nr), "stat 1")
+				nr++
+			}
+			ops = append(ops, opIns(1, vk(999, 0), 5), fmt.Sprintf("root 1 %d", nr), "stat 1")
+			f.RunTreeCase(Case{cfg, ops}, faultRunner, multiLevel)
+			continue
+		}
 		if i%12 == 11 {
 			// a version in the shape an earlier release (or an interrupted Delete) leaves — taller than
 			// its entries warrant, an entry-less top node over a child — persisted, reloaded, persisted
